@@ -193,7 +193,8 @@ def gen_machine_program(r: Rng, feat: Dict[str, bool], size: int) -> Dict:
                ("loop", 3 if depth == 0 and not in_loop else 0),
                ("lcd", 6 if feat.get("lcd") else 0), ("kil", 3 if feat.get("kil_reads") else 0),
                ("strobe", 2 if feat.get("kil_reads") else 0),
-               ("romw", 3 if feat.get("rom_writes") else 0)]
+               ("romw", 3 if feat.get("rom_writes") else 0),
+               ("cardrw", 4 if feat.get("card_rw") and not in_loop else 0)]
         kind = r.weighted([p for p in pal if p[1] > 0])
         if kind == "nop":
             a.op("NOP")
@@ -272,6 +273,14 @@ def gen_machine_program(r: Rng, feat: Dict[str, bool], size: int) -> Dict:
             a.lmn("ST_A", addr, tag="ROM_W")
             if not in_loop:
                 a.lmn("LD_A", addr, tag="ROM_R")
+        elif kind == "cardrw":
+            # read-modify-write of a cell in the memory-card window (whatever a previous machine left there shows up
+            # in A and in the scratch cell)
+            addr = 0x40000 + r.choice([0x10, 0x11, 0x7FF0, 0xFFFE])
+            a.lmn("LD_A", addr, tag="CARD_R")
+            a.op("ADD_A", r.range(1, 9))
+            a.lmn("ST_A", addr, tag="CARD_W")
+            a.lmn("ST_A", SCRATCH + 0x40 + r.below(8))
         elif kind == "kil":
             if in_loop:
                 a.op("NOP")
